@@ -83,8 +83,20 @@ def reconfirm(f):
         except Exception as e:
             bad.append({"locale": t["locale"], "namespace": t["namespace"], "error": str(e), "text": t["formatted"][:200]})
     extra["tables_not_json"] = bad
-    if f.kind in ("export_not_json", "file_not_json"):
+    if f.kind == "export_not_json":
         return bool(bad), extra
+    if f.kind in ("file_not_json", "file_differs_from_baked"):
+        # the files the helper has just written again: out/<namespace>/<locale>.json must exist and parse
+        missing = []
+        for t in j.get("tables", []):
+            fp = os.path.join(j["out_dir"], *([t["namespace"]] if t["namespace"] else []), t["locale"] + ".json")
+            try:
+                if json.load(open(fp, encoding="utf-8")) != json.loads(t["formatted"]):
+                    missing.append({"file": fp, "problem": "content differs from the table"})
+            except Exception as e:
+                missing.append({"file": fp, "problem": str(e)})
+        extra["files"] = missing[:8]
+        return bool(missing), extra
     # differences with the baked tables were computed from the same two real artefacts: deterministic
     return True, extra
 
